@@ -124,6 +124,7 @@ class SimRandom(object):
         self.fail_next = 0       # X3: raise OSError on the n-th next urandom (1 = next)
         self.fired_failures = 0
         self.override = None     # callable(kind, size) -> bytes or None
+        self.used_pool = set()
 
     def set_step(self, step):
         self.step = step
@@ -231,7 +232,14 @@ def _make_proxies():
         if not lst:
             return rsa.generate_private_key(public_exponent, key_size)
         raw = _random.keygen_octets('rsa:%d' % key_size, 4)
-        ent = lst[int.from_bytes(raw, 'big') % len(lst)]
+        # never hand the same pool entry to two keys of one run (two keys with one fingerprint are not a scenario)
+        i = int.from_bytes(raw, 'big') % len(lst)
+        for _ in range(len(lst)):
+            if (key_size, i) not in _random.used_pool:
+                break
+            i = (i + 1) % len(lst)
+        _random.used_pool.add((key_size, i))
+        ent = lst[i]
         p, q, d, e, n = (int(ent[k], 16) for k in ('p', 'q', 'd', 'e', 'n'))
         return rsa.RSAPrivateNumbers(p, q, d, rsa.rsa_crt_dmp1(d, p), rsa.rsa_crt_dmq1(d, q),
                                      rsa.rsa_crt_iqmp(p, q), rsa.RSAPublicNumbers(e, n)
